@@ -200,6 +200,8 @@ class _RankGen:
               args: Optional[Dict[str, Any]]) -> Dict[str, Any]:
         ev: Dict[str, Any] = {"ph": "X", "cat": cat, "name": name, "pid": pid, "tid": tid,
                               "_ts": ts, "_dur": dur}
+        if args is None and self.k.get("always_args"):
+            args = {"External id": self.ext_id}
         if args is not None:
             ev["args"] = args
         self.entries.append({"_t": ts, "_grp": grp, "ev": ev})
